@@ -12,7 +12,7 @@ func runC02(tier string, seed uint64, o *Out) error {
 	if tier == "thorough" {
 		ncases = 30000
 	}
-	sizes := []int64{5, 10, 1000}
+	sizes := []int64{5, 7, 10, 13, 1000}
 	nestLate = true // a watermark delivery inside the late-update callback of some late rows
 	defer func() { nestLate = false }()
 	for i := 0; i < ncases; i++ {
